@@ -44,7 +44,7 @@ func crossv(u, v [3]int64) [3]int64 {
 var halves = []int64{-2, -1, 0, 1, 2, 3, 4} // parameter * 2 : -1, -1/2, 0, 1/2, 1, 3/2, 2
 
 func genSegSeg(t *rapid.T, three bool) (string, [][3]int64) {
-	class := rapid.SampledFrom([]string{"constructed", "constructed", "small-grid", "big-grid", "parallel", "collinear", "degenerate", "touching"}).Draw(t, "class")
+	class := rapid.SampledFrom([]string{"constructed", "constructed", "small-grid", "big-grid", "parallel", "collinear", "degenerate", "touching", "near-parallel-long"}).Draw(t, "class")
 	k := uint(rapid.IntRange(1, 20).Draw(t, "k"))
 	lim := int64(1) << k
 	flat := func(p [3]int64) [3]int64 {
@@ -79,6 +79,25 @@ func genSegSeg(t *rapid.T, three bool) (string, [][3]int64) {
 		d := addk(c, 1, v)
 		b := addk(a, 1, u)
 		return fmt.Sprintf("constructed s=%d/2 t=%d/2", s2, t2), [][3]int64{a, b, c, d}
+	case "near-parallel-long":
+		// two long segments whose directions differ by a few units over ~2^19: they cross
+		// or pass each other at a very shallow angle (not parallel)
+		a := flat(pt(t, 1<<10, "a"))
+		u := flat(pt(t, 1<<19, "u"))
+		if u == ([3]int64{}) {
+			u[0] = 1 << 18
+		}
+		d := flat(pt(t, 3, "du"))
+		if d == ([3]int64{}) {
+			d[1] = 1
+		}
+		v := addk(u, 1, d)
+		c := addk(a, 1, flat(pt(t, 4, "off")))
+		if rapid.Bool().Draw(t, "midcross") {
+			// make them cross near the middle: shift c back by half of the direction difference
+			c = addk(a, -1, [3]int64{d[0] / 2, d[1] / 2, d[2] / 2})
+		}
+		return class, [][3]int64{a, addk(a, 1, u), c, addk(c, 1, v)}
 	case "small-grid":
 		l := int64(rapid.IntRange(1, 3).Draw(t, "side"))
 		return class, [][3]int64{flat(pt(t, l, "a")), flat(pt(t, l, "b")), flat(pt(t, l, "c")), flat(pt(t, l, "d"))}
